@@ -36,7 +36,11 @@ THEOREMS = [_T + n for n in [
     "C15_stft_step_truthful", "C15_stft_freq_truthful", "C15_stft_hop_within_one_sample",
     "C15_stft_step_pinned_untruthful",
     "C15_monitor_meaning", "C15_axis_ok_clip", "C15_axis_ok_recording", "C15_axis_ok_resample",
-    "C15_axis_ok_stft", "C15_axes_increasing"]]
+    "C15_axis_ok_stft", "C15_axes_increasing",
+    # review: the model factors through the symbolically traced plans; channels; resample / stft outside `hdt` / `hfit`
+    "C15_range_factors", "C15_clip_factors", "C15_recording_factors", "C15_resample_factors", "C15_stft_factors",
+    "C15_clip_channels", "C15_resample_drift", "C15_resample_within_one_step_iff", "C15_resample_chain_untruthful",
+    "C15_stft_long_window", "C15_stft_long_window_untruthful"]]
 LEVEL_TEXT = ("Lean theorems over the integer/rational model of load_clip, load_recording, resample and "
               "compute_spectrogram: a clip has exactly floor(duration x samplerate) frames, frame i is file frame "
               "floor(start x samplerate)+i (zero past the end) at time (offset+i)/samplerate and equals that frame and "
@@ -45,15 +49,24 @@ LEVEL_TEXT = ("Lean theorems over the integer/rational model of load_clip, load_
               "strictly increasing, start at the source's start and lie within one advertised step of first + i x step "
               "(resample: drift k x frac/(num x target) < 1/target; repaired spectrogram: exactly first + k x step, "
               "realised hop within one sample of the requested one); the pinned spectrogram step is proved untruthful "
-              "on a concrete witness. The model is tied to the code by differential runs on real WAV files and by the "
-              "theorem-backed monitor `axisOk` evaluated on the implementation's own coordinates.")
+              "on a concrete witness; without the assumption that the input axis is truthful the resampled drift is "
+              "characterised exactly (within one step iff k x |n x target x spacing - num| < num; a resampled resampled "
+              "array and a window longer than the audio are proved untruthful on witnesses = known findings). The model "
+              "is proved to be the composition of `plans` (offset / frame count / axis start, spacing, count / nperseg, "
+              "noverlap, fs / advertised steps) with the library contracts; the plans are tied to the code for all "
+              "rational inputs by symbolic traces of the real load_clip, load_recording, create_time_range, "
+              "create_range_dim, resample and compute_spectrogram regenerated and proved on every run (Tie 1b), the "
+              "composition by differential runs on real WAV files and by the theorem-backed monitor `axisOk` evaluated "
+              "on the implementation's own coordinates.")
 LEVEL_NOTE = ("Unmodelled: soundfile I/O, scipy's STFT / resample numerics, numpy `arange` in floats (their contracts - "
               "seek+read with zero fill, segment count and times of stft, `t0 + dt*n/num*k` of resample - are formulas of "
               "the model and are compared on every run); binary64 rounding in front of `int()`/`floor` (inputs whose "
-              "float products may fall into another integer cell than the exact ones are only monitored). Model tied to "
-              "the code by generator-bounded correspondence; no symbolic tie (the kernels use floor/int and numpy).")
-TECHNIQUE = ("Lean 4 proof over model; differential correspondence on real WAV files (exact / round-once / tolerance); "
-             "theorem-backed axis monitor on implementation output")
+              "float products may fall into another integer cell than the exact ones are only monitored). The symbolic "
+              "ties hold in ordered-field semantics (no rounding) and replace soundfile, np.arange, scipy.signal and "
+              "xarray constructors by recorders; the library part is tied by generator-bounded correspondence.")
+TECHNIQUE = ("Lean 4 proof over model; symbolic traces of the audio functions' own arithmetic (floor / int / arange count "
+             "symbolic) proved equal to the model's plans for all inputs on every run; differential correspondence on "
+             "real WAV files (exact / round-once / tolerance); theorem-backed axis monitor on implementation output")
 RULE = ("clips x files (1-3 channels, 15 file rates incl. odd and power-of-two ones, expansion 1/2/10) on and off sample "
         "boundaries, past the end of file, zero length; exhaustive small scope; recordings; spectrogram and resample "
         "pipelines with whole and fractional numbers of samples; non-trivial = the implementation returned an array "
@@ -66,7 +79,9 @@ TRUSTED = ["soundfile / libsndfile: `seek` + `read(frames, always_2d, fill_value
            "fix C16-1 (guard for an empty range in create_range_dim) is assumed present: a zero-length clip loads as an empty array"]
 ASSUMPTIONS = ["binary64 arithmetic is exact on the grids used (dyadic times with <= 24 fractional bits, integer rates < 2^22)",
                "float-safety classification `_same_cell`: model applied only where float and exact products share an integer cell",
-               "window no longer than the audio (scipy silently shrinks nperseg otherwise; hypothesis `hfit` of the stft theorems)",
+               "truthfulness theorems of the spectrogram assume a window no longer than the audio (hypothesis `hfit`) and those "
+               "of resample an input whose spacing is its advertised step (`hdt`); outside them the axes are monitored and "
+               "the two known findings C15-2 / C15-3 (specific matchers) absorb exactly those inputs",
                "clips start inside the file or at its very end, start >= 0 (otherwise libsndfile cannot seek: error on both sides)"]
 NOT_COMPARED = ["spectrogram / resampled sample values (scipy numerics; the property pins the axes)",
                 "error messages; which exception a failed seek raises (any exception <-> model `seek`)",
@@ -146,6 +161,15 @@ def _recording(inp):
     return k, _RECS[k]
 
 
+def _relocated(rec, inp):
+    """`"ad": true`: the recording carries a relative path, the directory is passed as `audio_dir`"""
+    if not inp.get("ad"):
+        return rec, {}
+    from pathlib import Path
+    full = str(rec.path)
+    return rec.model_copy(update={"path": Path(os.path.basename(full))}), {"audio_dir": os.path.dirname(full)}
+
+
 def _sr(inp):
     """the recording's own samplerate `int(file rate x expansion)`"""
     return int(Fraction(inp["fsr"]) * frac(inp.get("te", "1")))
@@ -208,12 +232,14 @@ def _impl_load_clip(inp):
     from soundevent.audio import load_clip
     import soundfile as sf
     _k, rec = _recording(inp)
+    rec, kw = _relocated(rec, inp)
     clip = data.Clip(recording=rec, start_time=float(frac(inp["s"])), end_time=float(frac(inp["e"])))
     try:
-        arr = load_clip(clip)
+        arr = load_clip(clip, **kw)
     except sf.LibsndfileError:
         return {"raise": "seek"}
-    assert arr.dims == ("time", "channel")
+    if arr.dims != ("time", "channel") or list(arr.channel.data) != list(range(arr.shape[1])):
+        return {"raise": "crash:dims", "trace": f"dims {arr.dims}, channel coordinate {list(arr.channel.data)}"}
     return {"val": {"frames": _codes_out(arr.data), "times": _rats(arr.time.data),
                     "step": rat(float(arr.time.attrs["step"]))},
             "aux": {"rec_sr": rec.samplerate, "channels": int(arr.shape[1])}}
@@ -235,7 +261,10 @@ def _impl_recording_of(inp):
     """Recording.from_file + load_recording on it"""
     from soundevent.audio import load_recording
     k, rec = _recording(inp)
-    arr = load_recording(rec)
+    rec2, kw = _relocated(rec, inp)
+    arr = load_recording(rec2, **kw)
+    if arr.dims != ("time", "channel") or list(arr.channel.data) != list(range(arr.shape[1])):
+        return {"raise": "crash:dims", "trace": f"dims {arr.dims}, channel coordinate {list(arr.channel.data)}"}
     return {"val": {"frames": _codes_out(arr.data), "times": _rats(arr.time.data),
                     "step": rat(float(arr.time.attrs["step"]))},
             "aux": {"sr": rec.samplerate, "duration": rat(rec.duration)}}
@@ -263,20 +292,22 @@ def _impl_clip_spectrogram(inp):
     return _spec_out(spec, audio)
 
 
-def _synthetic_audio(n, t0, sr, ch):
+def _synthetic_audio(n, t0, sr, ch, nostep=False):
+    """`nostep`: the time coordinate carries no `step` attribute (the code estimates it from the
+    coordinates; generated only where that mean is exact: power-of-two rates, dyadic start)"""
     import numpy as np
     import xarray as xr
     from soundevent.arrays import create_time_dim_from_array
     times = np.array([float(t0 + Fraction(i, sr)) for i in range(n)], dtype=np.float64)
     data = ((np.arange(n * ch).reshape(n, ch) * 37) % 101 - 50) / 64.0
-    return xr.DataArray(data, dims=("time", "channel"),
-                        coords={"time": create_time_dim_from_array(times, samplerate=sr), "channel": range(ch)})
+    tdim = create_time_dim_from_array(times) if nostep else create_time_dim_from_array(times, samplerate=sr)
+    return xr.DataArray(data, dims=("time", "channel"), coords={"time": tdim, "channel": range(ch)})
 
 
 def _impl_spectrogram(inp):
     """compute_spectrogram on a synthetic array: `len` samples from `t0` at `sr` Hz"""
     from soundevent.audio import compute_spectrogram
-    audio = _synthetic_audio(inp["len"], frac(inp["t0"]), inp["sr"], inp.get("ch", 1))
+    audio = _synthetic_audio(inp["len"], frac(inp["t0"]), inp["sr"], inp.get("ch", 1), inp.get("nostep", False))
     spec = compute_spectrogram(audio, float(frac(inp["w"])), float(frac(inp["h"])))
     return _spec_out(spec, audio)
 
@@ -300,10 +331,22 @@ def _impl_clip_resample(inp):
 
 def _impl_resample(inp):
     from soundevent.audio.operations import resample
-    audio = _synthetic_audio(inp["n"], frac(inp["t0"]), inp["sr"], inp.get("ch", 1))
+    audio = _synthetic_audio(inp["n"], frac(inp["t0"]), inp["sr"], inp.get("ch", 1), inp.get("nostep", False))
     out = resample(audio, inp["target"])
     return {"val": {"coords": _rats(out.time.data), "step": rat(float(out.time.attrs["step"]))},
             "aux": {"t0": rat(float(audio.time.data[0])), "n": inp["n"], "shape": list(out.shape)}}
+
+
+def _impl_resample_chain(inp):
+    """resample(resample(array, target1), target2) on a synthetic array"""
+    from soundevent.audio.operations import resample
+    audio = _synthetic_audio(inp["n"], frac(inp["t0"]), inp["sr"], inp.get("ch", 1))
+    first = resample(audio, inp["target1"])
+    second = resample(first, inp["target2"])
+    ax = lambda a: {"coords": _rats(a.time.data), "step": rat(float(a.time.attrs["step"]))}  # noqa: E731
+    return {"val": {"first": ax(first), "second": ax(second)},
+            "aux": {"t0": rat(float(audio.time.data[0])), "n": inp["n"], "shape1": list(first.shape),
+                    "shape2": list(second.shape)}}
 
 
 # ---------------------------------------------------------------------- model arguments
@@ -327,6 +370,12 @@ def _tm_resample(inp):
     t0 = frac(inp["t0"])
     return {"n": inp["n"], "t0": inp["t0"], "t1": rat(t0 + Fraction(1, inp["sr"])),
             "step": rat(Fraction(1, inp["sr"])), "target": inp["target"]}
+
+
+def _tm_resample_chain(inp):
+    m = _tm_resample({**inp, "target": inp["target1"]})
+    del m["target"]
+    return {**m, "target1": inp["target1"], "target2": inp["target2"]}
 
 
 def _tm_recording(inp):
@@ -378,8 +427,15 @@ def _cmp_coords(name, impl, model, exact=False):
     return None
 
 
+def _near(q, x, ulps=4):
+    """x is the exact rational q up to a few units in the last place (one or two roundings in
+    whatever order the code performs them; the property does not pin the last bit)"""
+    fq = float(q)
+    return abs(float(x) - fq) <= ulps * math.ulp(fq)
+
+
 def _cmp_step(name, impl, model):
-    if not round_once_eq(frac(model), float(frac(impl))):
+    if not _near(frac(model), float(frac(impl))):
         return _m(f"{name} axis: advertised step attribute differs from the model", f"{float(frac(impl))!r}, model {model} = {float(frac(model))!r}")
     return None
 
@@ -398,12 +454,16 @@ def _cmp_time_array(sr, io, mo, first_round_once=True):
     msg = _cmp_coords("time", a["times"], m["times"], exact=_pow2(sr))
     if msg:
         return msg
-    if first_round_once and m["times"] and not round_once_eq(frac(m["times"][0]), float(frac(a["times"][0]))):
-        return _m("first time stamp is not the correctly rounded offset/samplerate", f"{float(frac(a['times'][0]))!r} vs {m['times'][0]}")
+    if first_round_once and m["times"] and not _near(frac(m["times"][0]), float(frac(a["times"][0]))):
+        return _m("first time stamp is not offset/samplerate (to the last bits)", f"{float(frac(a['times'][0]))!r} vs {m['times'][0]}")
     return _cmp_step("time", a["step"], m["step"])
 
 
 def _compare_load_clip(inp, io, mo):
+    if _is_raise(mo) and mo["raise"] == "seek" and not _is_raise(io) and frac(inp["s"]) >= 0:
+        # a clip starting beyond the end of the file: libsndfile cannot seek there (model `seek`); code that
+        # returns the zero-filled clip instead satisfies the property - the monitor alone judged it
+        return None
     if _is_raise(io) or _is_raise(mo):
         if not _clip_safe(inp) and _is_raise(io) != _is_raise(mo):
             return None
@@ -424,6 +484,10 @@ def _compare_recording(inp, io, mo):
     d = frac(inp["duration"]) if "duration" in inp else frac(_tm_recording_of(inp)["duration"])
     if not (_pow2(sr) or _frac_half_safe(d * sr)):
         return None
+    if _is_raise(mo) and not _is_raise(io):
+        # a stored duration that contradicts the file: xarray refuses the axis (model `shape`); code that sizes
+        # the axis from the data instead satisfies the property - the monitor alone judged it
+        return None
     if _is_raise(io) or _is_raise(mo):
         return _cmp_raise(io, mo)
     return _cmp_time_array(sr, io, mo, first_round_once=False)
@@ -433,8 +497,9 @@ def _cmp_spec(io, mo):
     a, m = io["val"], mo["val"]
     if a["len"] != m["len"]:
         return _m("number of audio samples differs from the model", f"{a['len']} samples, model {m['len']}")
+    fits = m["nperseg"] <= m["len"]     # otherwise (known finding C15-3) the steps are left to the monitor
     for ax in ("time", "freq"):
-        msg = _cmp_coords(ax, a[ax]["coords"], m[ax]["coords"]) or _cmp_step(ax, a[ax]["step"], m[ax]["step"])
+        msg = _cmp_coords(ax, a[ax]["coords"], m[ax]["coords"]) or (fits and _cmp_step(ax, a[ax]["step"], m[ax]["step"])) or None
         if msg:
             return msg
     sh = io["aux"]["shape"]
@@ -494,6 +559,33 @@ def _compare_resample(inp, io, mo):
     return _cmp_axis(io, mo) if safe else None
 
 
+def _chain_safe(inp, n1):
+    """both `int(size * (target * step))` land in the exact product's cell"""
+    sr, t1, t2 = inp["sr"], inp["target1"], inp["target2"]
+    if not _resample_safe(sr, inp["n"], t1):
+        return False
+    return n1 is None or _same_cell(Fraction(n1 * t2, t1), n1 * (t2 * (1.0 / t1)))
+
+
+def _compare_resample_chain(inp, io, mo):
+    n1 = len(io["val"]["first"]["coords"]) if not _is_raise(io) else None
+    safe = _chain_safe(inp, n1)
+    if _is_raise(io) or _is_raise(mo):
+        if _is_raise(io) and _is_raise(mo):
+            return None
+        return _cmp_raise(io, mo) if safe else None
+    if not safe:
+        return None
+    for k, sh in (("first", "shape1"), ("second", "shape2")):
+        a, m = io["val"][k], mo["val"][k]
+        msg = _cmp_coords(k + " resampled time", a["coords"], m["coords"]) or _cmp_step(k + " resampled time", a["step"], m["step"])
+        if msg:
+            return msg
+        if io["aux"][sh][0] != len(m["coords"]):
+            return _m("resampled data shape does not match the model's time axis", f"{k}: shape {io['aux'][sh]}")
+    return None
+
+
 # ---------------------------------------------------------------------- property monitor
 def _axis_ok(ctx, first, axis, what):
     if not axis["coords"]:
@@ -544,12 +636,12 @@ def _holds_load_clip(ctx, inp, io):
     off = round(t0 * sr)
     if safe and off != math.floor(s * sr):
         return _m("time axis does not start at sample floor(start x samplerate)", f"starts at sample {off}, floor = {math.floor(s * sr)}")
-    if not round_once_eq(Fraction(off, sr), float(t0)):
+    if not _near(Fraction(off, sr), float(t0)):
         return _m("first time stamp is not on a sample boundary", f"{float(t0)!r}")
     msg = _axis_ok(ctx, v["times"][0], {"coords": v["times"], "step": v["step"]}, "clip time")
     if msg:
         return msg
-    if not round_once_eq(Fraction(1, sr), float(frac(v["step"]))):
+    if not _near(Fraction(1, sr), float(frac(v["step"]))):
         return _m("advertised step of the clip is not 1/samplerate", f"{float(frac(v['step']))!r}, samplerate {sr}")
     # frame i and its time stamp are those of index off + i of the loaded recording, zero past its end
     rdata, rtimes = _recording_data(inp)
@@ -593,9 +685,17 @@ def _holds_spec(ctx, inp, io):
         return None
     v = io["val"]
     sr = inp["sr"] if "sr" in inp else _sr(inp)
+    if io["aux"].get("dims") != ["frequency", "time", "channel"]:
+        return _m("spectrogram dimensions are not (frequency, time, channel)", f"{io['aux'].get('dims')}")
+    sh = io["aux"]["shape"]
+    if sh[0] != len(v["freq"]["coords"]) or sh[1] != len(v["time"]["coords"]):
+        return _m("spectrogram data shape does not match its own axes", f"shape {sh}")
     if not _window_fits(sr, frac(inp["w"]), v["len"]):
-        ctx.tally("spectrogram:window-longer-than-audio (not monitored)")
-        return None
+        # known finding C15-3: scipy shrinks the window, the advertised steps refer to the requested one
+        ctx.tally("spectrogram:window-longer-than-audio (monitored; known finding C15-3 where untruthful)")
+        msg = (_axis_ok(ctx, io["aux"]["t0"], v["time"], "spectrogram time")
+               or _axis_ok(ctx, "0", v["freq"], "spectrogram frequency"))
+        return msg and _m("window longer than the audio: " + msg.split("|")[0].strip()[:28], msg.split("|", 1)[1].strip())
     return (_axis_ok(ctx, io["aux"]["t0"], v["time"], "spectrogram time")
             or _axis_ok(ctx, "0", v["freq"], "spectrogram frequency"))
 
@@ -606,6 +706,51 @@ def _holds_resampled(ctx, inp, io):
     return _axis_ok(ctx, io["aux"]["t0"], io["val"], "resampled time")
 
 
+def _holds_resample_chain(ctx, inp, io):
+    if _is_raise(io):
+        return None
+    v = io["val"]
+    msg = _axis_ok(ctx, io["aux"]["t0"], v["first"], "resampled time")
+    if msg:
+        return msg
+    if v["second"]["coords"] and v["first"]["coords"] and frac(v["second"]["coords"][0]) != frac(v["first"]["coords"][0]):
+        return _m("resampled resampled axis does not start at its source's start")
+    # known finding C15-2 where the first stage realised a spacing other than its advertised step
+    msg = _axis_ok(ctx, io["aux"]["t0"], v["second"], "resampled resampled time")
+    return msg and _m("resample of a resampled array: axis does not tell the truth", msg.split("|", 1)[1].strip())
+
+
+# ---------------------------------------------------------------------- known findings (specific matchers)
+def _match_long_window(failure, m):
+    """C15-3: spectrogram of an audio array shorter than the window; only the axis monitor's verdict"""
+    if failure.op not in ("spectrogram", "clip_spectrogram") or failure.kind != "property":
+        return False
+    if not failure.detail.startswith("window longer than the audio: "):
+        return False
+    inp, io = failure.inp, failure.impl
+    sr = inp["sr"] if "sr" in inp else _sr(inp)
+    n = io["val"]["len"]
+    return n > 0 and math.floor(frac(inp["w"]) * sr) > n
+
+
+def _match_resample_chain(failure, m):
+    """C15-2: second of two resamplings, the first of which did not realise its advertised step (its
+    `num` samples span `n` input steps with num / target1 != n / samplerate - because n x target1 /
+    samplerate is not whole, or because binary64 truncated a whole product such as 219 x 80000 / 48000
+    to 364); only the axis monitor's verdict on the second axis"""
+    if failure.op != "resample_chain" or failure.kind != "property":
+        return False
+    if not failure.detail.startswith("resample of a resampled array: axis does not tell the truth"):
+        return False
+    inp = failure.inp
+    n1 = len(failure.impl["val"]["first"]["coords"])
+    return n1 * inp["sr"] != inp["n"] * inp["target1"]
+
+
+FINDING_MATCHERS = {"window_longer_than_audio": _match_long_window,
+                    "resample_of_resampled": _match_resample_chain}
+
+
 def _nontrivial(inp, out):
     if _is_raise(out):
         return False
@@ -614,6 +759,8 @@ def _nontrivial(inp, out):
         return len(v["frames"]) > 0
     if "coords" in v:
         return len(v["coords"]) > 0
+    if "second" in v:
+        return len(v["second"]["coords"]) > 0
     return len(v["time"]["coords"]) > 0
 
 
@@ -633,6 +780,9 @@ OPS = {
                         compare=_compare_clip_resample, holds=_holds_resampled, nontrivial=_nontrivial, mode="tolerance"),
     "resample": Op("resample", _impl_resample, to_model=_tm_resample, compare=_compare_resample,
                    holds=_holds_resampled, nontrivial=_nontrivial, mode="tolerance"),
+    "resample_chain": Op("resample_chain", _impl_resample_chain, to_model=_tm_resample_chain,
+                         compare=_compare_resample_chain, holds=_holds_resample_chain, nontrivial=_nontrivial,
+                         mode="tolerance"),
 }
 
 # ---------------------------------------------------------------------- generators
@@ -682,7 +832,7 @@ def _gen_clip_times(rng, base, grid):
     boundaries, around the end of the file, zero and sub-sample lengths"""
     sr = _sr(base)
     n = base["file"]["n"]
-    kind = rng.choice(["inside", "inside", "straddle-end", "at-end", "zero", "subsample", "whole", "tail"])
+    kind = rng.choice(["inside", "inside", "straddle-end", "at-end", "zero", "subsample", "whole", "tail", "long"])
     fr = rng.choice([Fraction(0), Fraction(0), Fraction(1, 2), Fraction(1, 4), Fraction(3, 4), Fraction(rng.randint(1, 15), 16)])
     fr2 = rng.choice([Fraction(0), Fraction(0), Fraction(1, 2), Fraction(1, 3), Fraction(rng.randint(1, 15), 16)])
     length = rng.randint(1, 120)
@@ -696,6 +846,10 @@ def _gen_clip_times(rng, base, grid):
         u0, length, fr2 = Fraction(0), n + rng.choice([0, 0, 1, 5]), Fraction(0)
     elif kind == "tail":
         u0 = Fraction(max(0, n - rng.randint(0, 3)))
+    elif kind == "long":
+        # a long clip that does not start at the beginning of the file (more than 1000 frames where the file allows)
+        u0 = rng.randint(1, max(1, n // 2)) + fr
+        length = rng.randint(max(1, n // 2), n + 5)
     else:
         u0 = rng.randint(0, n) + fr
     if kind == "zero":
@@ -725,6 +879,9 @@ def _clip_cases(ctx, pool, count, grid):
         base = rng.choice(pool)
         kind, s, e = _gen_clip_times(rng, base, grid)
         inp = {**base, "s": rat(s), "e": rat(e)}
+        if rng.random() < 0.1:
+            inp["ad"] = True
+            ctx.tally("clip:relative path + audio_dir")
         ctx.tally(f"clip:{'grid' if grid else 'free'}:{kind}")
         ctx.tally("clip:channels=%d" % base["file"]["ch"])
         ctx.tally("clip:te=%s" % base["te"])
@@ -771,9 +928,14 @@ def _recording_cases(rng, count):
         fsr = rng.choice(FILE_RATES)
         te = int(rng.choice(EXPANSIONS))
         sr = fsr * te
-        kind = rng.choice(["exact", "exact", "float", "short", "long", "half-", "half+"])
+        kind = rng.choice(["exact", "exact", "float", "short", "long", "half-", "half+", "half="])
+        if kind == "half=":
+            # stored duration exactly half a sample longer than the file (exact at power-of-two rates): the
+            # trailing-point rule `>= stop - step/2` still drops the extra point
+            fsr, te = rng.choice([8192, 16384, 65536, 262144]), rng.choice([1, 2])
+            sr = fsr * te
         x = {"exact": Fraction(n), "float": None, "short": n - Fraction(3, 8), "long": n + Fraction(3, 8),
-             "half-": n - Fraction(5, 8), "half+": n + Fraction(5, 8)}[kind]
+             "half-": n - Fraction(5, 8), "half+": n + Fraction(5, 8), "half=": n + Fraction(1, 2)}[kind]
         d = Fraction((n / fsr) / te) if x is None else Fraction(float(x / sr))
         out.append({"file": _gen_file(rng, n), "fsr": fsr, "sr": sr, "duration": rat(d)})
     return out
@@ -831,7 +993,17 @@ def _synthetic_spec_cases(ctx, count):
         t0 = rng.choice([Fraction(0), Fraction(rng.randint(0, 4000), 16), Fraction(rng.randint(0, 10 ** 6), sr)])
         t0 = Fraction(float(t0))
         w, h = _spec_params(rng, sr, n, grid=rng.random() < 0.5)
-        out.append({"len": n, "t0": rat(t0), "sr": sr, "ch": rng.choice([1, 2]), "w": rat(w), "h": rat(h)})
+        if rng.random() < 0.12:
+            # window longer than the audio (scipy shrinks it): 1 .. 40 samples too long
+            extra = rng.choice([1, 1, 2, 3, 14, 40])
+            w = Fraction(n + extra, sr)
+            h = Fraction(rng.randint(max(1, extra), n + extra), sr)
+            ctx.tally("spectrogram:synthetic:window-longer-than-audio")
+        case = {"len": n, "t0": rat(t0), "sr": sr, "ch": rng.choice([1, 2]), "w": rat(w), "h": rat(h)}
+        if _pow2(sr) and rng.random() < 0.5:
+            case.update(t0=rat(Fraction(rng.randint(0, 4000), 16)), nostep=True)
+            ctx.tally("spectrogram:synthetic:no step attribute (estimated)")
+        out.append(case)
         ctx.tally("spectrogram:synthetic")
     return out
 
@@ -876,12 +1048,49 @@ def _synthetic_resample_cases(ctx, count):
             target = max(1, sr // 2)
         if n * target < sr and rng.random() < 0.9:
             target = -(-2 * sr // n)
-        out.append({"n": n, "t0": rat(t0), "sr": sr, "ch": rng.choice([1, 2]), "target": int(target)})
+        case = {"n": n, "t0": rat(t0), "sr": sr, "ch": rng.choice([1, 2]), "target": int(target)}
+        if _pow2(sr) and rng.random() < 0.5:
+            case.update(t0=rat(Fraction(rng.randint(0, 4000), 16)), nostep=True)
+            ctx.tally("resample:synthetic:no step attribute (estimated)")
+        out.append(case)
         ctx.tally("resample:synthetic")
     return out
 
 
+def _resample_chain_cases(ctx, count):
+    rng = ctx.rng
+    out = []
+    for _ in range(count):
+        sr = rng.choice([8000, 8192, 16000, 22050, 44100, 48000, 1000, 100])
+        n = rng.randint(4, 300)
+        t0 = Fraction(float(rng.choice([Fraction(0), Fraction(rng.randint(0, 4000), 16)])))
+        exact = rng.random() < 0.4
+        if exact:
+            # first stage realises its advertised step exactly: n x target1 is a multiple of the samplerate
+            g = sr // math.gcd(sr, n)
+            t1 = g * rng.randint(1, max(1, 3 * sr // g))
+        else:
+            t1 = rng.choice(TARGETS + [sr // 2, sr * 2, max(1, sr // 3), sr - 1, sr + 1])
+        if n * t1 > 2000 * sr:
+            t1 = max(1, sr // 2)
+        if n * t1 < 2 * sr:
+            t1 = -(-3 * sr // n)
+        n1 = n * t1 // sr
+        t2 = rng.choice(TARGETS + [t1, t1 * 2, t1 * 10, max(1, t1 // 2), sr])
+        if n1 * t2 > 3000 * t1:
+            t2 = t1 * 2
+        if n1 * t2 < t1:
+            t2 = t1
+        out.append({"n": n, "t0": rat(t0), "sr": sr, "ch": rng.choice([1, 2]), "target1": int(t1), "target2": int(t2)})
+        ctx.tally("resample_chain:first stage %s" % ("exact" if (n * t1) % sr == 0 else "with remainder"))
+    return out
+
+
 # ---------------------------------------------------------------------- stages
+def _stage_ties(ctx):
+    """Tie 1b: the functions' own arithmetic, traced from the current source, equals the model's plans"""
+    from .. import c15_sym
+    c15_sym.register(ctx)
 def _assumptions(ctx):
     """facts about the code's call sites the model relies on (defaults of compute_spectrogram)"""
     from soundevent.audio import compute_spectrogram
@@ -911,7 +1120,7 @@ def _stage_clips(ctx):
 def _stage_recordings(ctx):
     ctx.run_cases(OPS["load_recording"], _recording_cases(ctx.rng, ctx.budget(60, 400)))
     pool = getattr(ctx, "c15_pool", None) or _file_pool(ctx.rng, 6)
-    ctx.run_cases(OPS["recording_of_file"], [dict(b) for b in pool])
+    ctx.run_cases(OPS["recording_of_file"], [dict(b) for b in pool] + [dict(b, ad=True) for b in pool[:4]])
 
 
 def _stage_spectrograms(ctx):
@@ -930,16 +1139,20 @@ def _stage_resample(ctx):
     ctx.run_cases(OPS["clip_resample"], _clip_resample_cases(ctx, pool, ctx.budget(400, 2500), grid=True))
     ctx.run_cases(OPS["clip_resample"], _clip_resample_cases(ctx, pool, ctx.budget(250, 1500), grid=False))
     ctx.run_cases(OPS["resample"], _synthetic_resample_cases(ctx, ctx.budget(300, 2000)))
+    ctx.run_cases(OPS["resample_chain"], _resample_chain_cases(ctx, ctx.budget(200, 1200)))
 
 
 def run(ctx):
     try:
         ctx.stage("corpus", ctx.run_corpus, OPS)
         ctx.stage("assumptions", _assumptions, ctx)
+        ctx.stage("symbolic ties", _stage_ties, ctx)
         ctx.stage("clips", _stage_clips, ctx)
         ctx.stage("recordings", _stage_recordings, ctx)
         ctx.stage("spectrograms", _stage_spectrograms, ctx)
         ctx.stage("resample", _stage_resample, ctx)
+        from .. import c15_sym
+        ctx.stage("discharge", ctx.discharge, c15_sym.IMPORTS)
     finally:
         if not getattr(ctx, "c15_keep", False):
             _cleanup()
